@@ -752,6 +752,45 @@ def build_mt_group(rng, gid, bigs, inputs, dicts):
     return g
 
 
+def build_rsync_group(rng, gid, src):
+    """MT + ZSTD_c_rsyncable on an input of a dozen sections: the job cuts are content defined (rolling hash) and must
+    not move when the jobs table is full at a synchronisation point - which happens when the caller drains the output
+    slowly (64 B .. 4 KiB per call) while the whole input is available; reference: one huge output buffer."""
+    n = src[1]
+    p = {"level": rng.choice([1, 1, 3]), "jobSize": 1, "rsyncable": 1}
+    if rng.random() < 0.5:
+        p["checksum"] = 1
+    if rng.random() < 0.3:
+        p["overlapLog"] = rng.randint(1, 9)
+    t = Target("stream", src, params=p, bias="mt-rsync", reset=rng.choice(["r3", "r1r2"]))
+    a = n // 2 + rng.randint(0, 99999)
+    t.pieces = rng.choice([[(n, 2)], [(n, 0), (0, 2)], [(a, 0), (n - a, 2)]])
+    g = Group(gid, t)
+    fids = Fid(1000)
+    L = g.lines
+    L.append("arena %d" % (n + 200000))
+    L.append("trace 1")
+    wref = rng.choice([1, 2])
+    # measured on the seeded change "already at a sync point re-check dropped": 3-4 workers expose it on every kind of
+    # data with capacities 64 .. 4096, 1-2 workers only on (nearly) incompressible data
+    plan = [("ref", wref, "heapz", [1 << 30], 0), ("w1-cap64", 1, "heap", [64], 0), ("w2-cap1000", 2, "heap", [1000], 0),
+            ("w4-cap64", 4, "heapz", [64], 0), ("w3-cap1000", 3, "heap", [rng.randint(500, 1500)], rng.choice([0, 4])),
+            ("w4-cap4096-reseg", 4, "heap", [rng.randint(2000, 4096)], 0)]
+    for k, (label, w, kind, caps, jit) in enumerate(plan):
+        L.append("ctx %d %s 0" % (k, kind))
+        L.append("jitter %d" % jit)
+        fid = fids.next()
+        pcs = None
+        if label.endswith("reseg") and any(dd == 0 for _, dd in t.pieces):
+            pcs = reseg_pieces(rng, t.pieces)
+        L.extend(t.lines(k, fid, sa=rng.choice([0, rng.randint(1, 63)]), da=rng.choice([0, rng.randint(1, 63)]), caps=caps, inmode=0,
+                         override={"nbWorkers": w}, fresh=rng.random() < 0.5, pieces=pcs))
+        L.append("jitter 0")
+        g.variants.append((fid, label, "eq", dict(ctx=kind, w=w, jitter=jit, mtfail=0, caps=caps, hist=["mt", "rsync", "w%d" % w], pieces=pcs)))
+    g.kinds.update(["mt", "rsync"])
+    return g
+
+
 # --------------------------------------------------------------------------------------------
 # running
 
@@ -1411,6 +1450,9 @@ def run_(ctx):
     blob, inputs, dicts, bigs = build_pool(rng, quick)
     # exact multiple of the minimal job size for the MT finding
     mtsrc = blob.add(codec.gen_input(random.Random(ctx.seed + 77), "text", 5 * (512 << 10))) + ("text",)
+    # a dozen sections for the rsyncable groups
+    rsrcs = [blob.add(codec.gen_input(random.Random(ctx.seed + 78 + i), kind, 6000000)) + ("rsync-" + kind,)
+             for i, kind in enumerate(["random", "mixed"] if quick else ["random", "mixed", "text", "lowent"])]
     blob_path = os.path.join(ctx.scratch, "blob.bin")
     with open(blob_path, "wb") as f:
         f.write(bytes(blob.b))
@@ -1424,8 +1466,8 @@ def run_(ctx):
             log("replay recorded with seed=%s tier=%s: re-run with VERIF_SEED=%s --tier %s for the same case" % (
                 ro.get("seed"), ro.get("tier"), ro.get("seed"), ro.get("tier")))
 
-    n_groups = 100 if quick else 2500
-    n_mt = 8 if quick else 120
+    n_groups = 100 if quick else 4000
+    n_mt = 8 if quick else 200
     groups = []
     for gid in range(n_groups):
         grng = random.Random(ctx.seed * 1000003 + gid)
@@ -1437,6 +1479,12 @@ def run_(ctx):
         gid = n_groups + k
         grng = random.Random(ctx.seed * 1000003 + gid)
         g = build_mt_group(grng, gid, bigs, inputs, dicts)
+        g.mt = True
+        groups.append(g)
+    n_rs = 2 if quick else 16
+    for k in range(n_rs):
+        gid = 100000 + k
+        g = build_rsync_group(random.Random(ctx.seed * 1000003 + gid), gid, rsrcs[k % len(rsrcs)])
         g.mt = True
         groups.append(g)
     fg = finding_groups(rng, n_groups + n_mt, inputs, bigs, blob)
@@ -1500,7 +1548,7 @@ def run_(ctx):
         # supporting run: the first groups again under ASan + UBSan (garbage indices, reads outside the workspace)
         try:
             exe_asan = core.build_harness("c07_det", ["c07_det.c"], variant="asan", extra_flags=["-w"])
-            sub = [g for g in groups if not g.mt][:600]
+            sub = [g for g in groups if not g.mt][:1000]
             t1 = time.time()
             for g, res in run_groups(exe_asan, blob_path, sub, ctx.seed):
                 rc, out, err, script = res
@@ -1540,6 +1588,7 @@ def run_(ctx):
                     dct = bytes(blob.b[g.t.cdict[1]:g.t.cdict[1] + g.t.cdict[2]])
                 fl = "rawdict" if (dct is not None and dct[:4] != bytes.fromhex("37a430ec")) else None
                 cases.append(("g%d" % g.gid, fl, dct, bytes.fromhex(f["hex"])))
+            log("R sample: %d frames, %d input bytes" % (len(cases), sum(h[0].t.src[1] for h in hexes[:len(cases)])))
             if cases:
                 rr = cd.model(cases)
                 for (cid, fl, dct, fr), (g, f) in zip(cases, hexes):
